@@ -249,6 +249,45 @@ def check_close_seen_by_peer():
     return out
 
 
+def check_close_while_receiving(rseed, policy):
+    """A thread waits in receive() on a SocketPort; another thread calls close():
+    the close must go through and the peer must see the disconnect."""
+    import random
+    from .. import portrun
+    holder = {}
+    orig = portrun.Setup.__init__
+
+    def grab(self, *a, **k):
+        orig(self, *a, **k)
+        holder['setup'] = self
+    portrun.Setup.__init__ = grab
+    try:
+        prog = [[{'op': 'recv', 'm': 0, 'lane': 0}], [{'op': 'close', 'm': 0, 'lane': 0}]]
+        run = portrun.run_program('socket', [], prog, rng=random.Random(rseed), policy=policy, budget=300)
+    finally:
+        portrun.Setup.__init__ = orig
+    st = holder['setup']
+    try:
+        r2 = run['results'].get(2)
+        if run['hung'] or r2 is None or r2[0]['k'] != 'ok':
+            return ('close-blocked-by-waiting-receiver',
+                    'close() did not complete while another thread waited in receive() (results %r)' % (run['results'],))
+        st.peer.settimeout(1.0)
+        try:
+            data = st.peer.recv(16)
+        except socket.timeout:
+            return 'close-not-seen-by-peer', 'peer sees no EOF after close() during a waiting receive()'
+        if data != b'':
+            return 'peer-data', 'peer read %r' % (data,)
+        return None
+    finally:
+        for s_ in (st.peer, st.sock):
+            try:
+                s_.close()
+            except Exception:
+                pass
+
+
 def check_server(n_per_client=3):
     """PortServer on the loopback interface, two clients."""
     import mido
@@ -366,6 +405,9 @@ def replay(case):
     if k == 'close_seen':
         v = [x for x in check_close_seen_by_peer() if x[1].get('pre_send') == case['pre_send']]
         return v and v[0][2]
+    if k == 'close_recv':
+        r = check_close_while_receiving(case['rseed'], case['policy'])
+        return r and r[1]
     if k == 'server':
         v, skip = check_server()
         return v and v[0][2]
@@ -408,6 +450,14 @@ CHECK_DEADLOCK FALSE
     # reverse direction and server
     for key, case, msg in check_close_seen_by_peer():
         ctx.violation('socket/' + key, case, msg)
+    import random as _random
+    rng = _random.Random(ctx.seed + 18)
+    for k in range(12):
+        rseed, policy = rng.randrange(1 << 30), ['random', 'pct', 'first'][k % 3]
+        r = check_close_while_receiving(rseed, policy)
+        ctx.replayed += 1
+        if r:
+            ctx.violation('socket/' + r[0], {'kind': 'close_recv', 'rseed': rseed, 'policy': policy}, r[1])
     v, skipped = check_server()
     for key, case, msg in v:
         ctx.violation('socket/' + key, case, msg)
